@@ -8,7 +8,7 @@ MODULE, PKG, BIN = "cesium", "./verifh/c04", "c04"
 COQ_IMPORTS = ("From Synnax Require Import Common.Base Cesium.Store Cesium.DeleteModel Cesium.GCModel "
                "Monitors.Mon_C04.")
 CASE_TYPE = "case_t"
-COUNTS = {"quick": 260, "thorough": 8000}
+COUNTS = {"quick": 220, "thorough": 8000}
 SHARD = 20
 MAXTS = 2 ** 63 - 1
 
@@ -421,13 +421,38 @@ RULE = ("scripts of 6-18 operations over 1-2 index groups (index channel + 1-3 d
         ">=1 delete that splits a domain and >=1 GC that rewrote a file; distinct by hash.")
 TRUSTED = ["hook cesium/export_verif_c04.go (VerifGC = the private garbageCollect pass, synchronous)",
            "harness drives the public cesium API on an in-memory FS and decodes the persisted index.domain records",
-           "Distance/Stamp/index-search/domain-iterator models of Cesium/{Store,IndexSearch,Distance,Stamp}.v (C10/C01)"]
+           "Distance/Stamp/index-search/domain-iterator MODELS of Cesium/{Store,IndexSearch,Distance,Stamp}.v (C10/C01) are "
+           "imported; their specifications used here (isearch_spec, usearch_point, distance_ok, stamp_ok) are proved in "
+           "Cesium/DeleteSearch.v and DeleteDistance.v",
+           "float32 GC threshold int64(thr*float32(FileSize)) is computed by the runner and cross-checked against Go on every case"]
 ASSUMES = ["sequential histories (no writer/iterator open during Delete/GC); files < 4 GiB (uint32 casts do not wrap)",
            "the file a writer acquires is taken from the implementation (Go map order); no file rollover inside a commit",
-           "index stamps strictly increasing within a domain"]
-PARTIAL = None
-READY = False
-TECHNIQUE = "Coq proof (invariants over operation lists, refinement to sample lists) + model/impl correspondence by vm_compute"
+           "index stamps strictly increasing within a domain; stamps in [0, 2^63-1)",
+           "theorems hold for states satisfying db_ok/wf_db; the decidable check db_okb (proved sound) is evaluated on every "
+           "model state of every generated history, writes included"]
+PARTIAL = ("delete exactness is proved for every history state satisfying the invariant and for calls that return no error: "
+           "(a) success of the index look-ups (Distance/Stamp continuity) is observed by the correspondence, not proved; "
+           "(b) re-establishment of the database invariant after deleting from an INDEX channel is proved at channel level "
+           "(C04_delete_exact_one_channel with the channel as its own index) but not lifted to the dependants at database level; "
+           "(c) preservation of the invariant by writes is validated at run time by the sound check db_okb, not proved")
+READY = True
+TECHNIQUE = ("Coq proof (storage invariant + alignment with the index; binary-search, Distance/Stamp specifications; "
+             "refinement of pointer surgery to filtered (stamp, sample) lists; GC view preservation) + model/impl "
+             "correspondence by vm_compute on persisted pointers, file sizes and reads")
 DESIGN_REF = "DESIGN.md §8 C04"
-LEVEL_TEXT = "see report"
-LEVEL_NOTE = "see report"
+LEVEL_TEXT = ("Machine-checked Coq theorems over an executable Gallina copy of unary/delete.go (calculateStart/EndOffset, all "
+              "approximation cases), domain/delete.go (Delete, validateDelete, GarbageCollect, garbageCollectFile, "
+              "resolvePointerOffset), cesium/delete.go (DeleteTimeRange, index guard), HasDataFor and the DB.Read path, on top "
+              "of the imported Distance/Stamp models: delete offsets snap to sample boundaries in every case "
+              "(C04_start/end_offset_snaps); domain.Delete removes exactly the samples stamped in [a,b) for arbitrary bounds and "
+              "restores the invariant, so it composes over repeated/nested deletes (C04_delete_exact_one_channel, C04_delete_exact, "
+              "C04_reads_after_delete); reads return exactly the stored content of the range (C04_read_is_content); unnamed "
+              "channels untouched in every outcome; index delete refused iff a dependant has data, in particular when it has a "
+              "sample in range; GC at any threshold and reopen change no read and keep the invariant, with the delta-map lookup "
+              "proved independent of Go map order. The model is tied to /repo on every run: the real cesium DB is driven through "
+              "write/delete/GC/reopen scripts and persisted pointers, file sizes, DB size, error class and reads of 6-10 ranges "
+              "per channel after every operation are compared exactly inside Coq; the decidable monitor states the property on "
+              "the implementation's reads and produced the replays of five defects (F30-F34), fixed in /repo.")
+LEVEL_NOTE = ("partial: see PARTIAL. Trusted: Coq kernel/vm_compute; hand-written model (tied by correspondence, not translation); "
+              "imported Distance/Stamp models; harness + VerifGC hook; generator. All theorems closed under the global context. "
+              "C04_pinned_*_refuted keep the witnesses of F30-F34 for the pinned code (fx=false).")
